@@ -34,6 +34,7 @@ import (
 	"os"
 	"os/exec"
 	"path/filepath"
+	"regexp"
 	"sort"
 	"strings"
 	"sync"
@@ -291,9 +292,87 @@ func runOne(c *core.Ctx, cs Case) (*Result, error) {
 
 // --------------------------------------------------------------- signatures
 
+// formatOf names the input format of a case (the seed's format, not the way it was opened).
+func formatOf(cs *Case) string {
+	switch cs.Kind {
+	case "query":
+		return "query"
+	case "proto":
+		return "zng-scanner"
+	}
+	f := strings.SplitN(cs.Seed, "/", 2)[0]
+	if f == "typevalue" {
+		f = "zng"
+	}
+	return f
+}
+
+var genericPkg = regexp.MustCompile(`^(zcode\.|[A-Z(])`) // package zed (module root) and zcode: shared utilities
+
+// frames lists the repository functions of a stack, innermost first.
+func frames(stack string) []string {
+	var out []string
+	for _, m := range reFunc.FindAllStringSubmatch(stack, -1) {
+		fn := strings.TrimPrefix(m[1], "github.com/brimdata/super/")
+		fn = strings.TrimPrefix(fn, "github.com/brimdata/super.")
+		if strings.HasPrefix(fn, "pkg/verif") {
+			continue
+		}
+		fn = reClosure.ReplaceAllString(fn, ".func")
+		out = append(out, fn)
+	}
+	return out
+}
+
+// component strips the method name: "zson.(*Formatter).formatValue" -> "zson.(*Formatter)".
+func component(fn string) string {
+	if i := strings.Index(fn, ")."); i >= 0 {
+		return fn[:i+1]
+	}
+	return fn
+}
+
+// callerOf returns the component of the first frame outside the shared utility packages.
+func callerOf(stack string) string {
+	for _, fn := range frames(stack) {
+		if !genericPkg.MatchString(fn) {
+			return component(fn)
+		}
+	}
+	return "?"
+}
+
+// signature: kind : input format : where in the repository it fails.  For panics the innermost
+// function plus the component that called into shared utility code; for hangs / leaks only the
+// component (the sampled innermost frame of a spinning goroutine is arbitrary).
+func signature(cs *Case, res *Result) string {
+	kind := res.Outcome
+	if kind == "crash" {
+		kind = "panic" // a panic in a goroutine of the reader (not recoverable by the caller)
+	}
+	f := formatOf(cs)
+	switch kind {
+	case "invalid":
+		return fmt.Sprintf("invalid:%s:%s", f, strings.SplitN(res.Detail, ":", 2)[0])
+	case "alloc":
+		return fmt.Sprintf("alloc:%s:%s", f, family(cs.Class))
+	case "hang", "leak":
+		if cs.Kind == "proto" {
+			return fmt.Sprintf("%s:%s:%s:%s", kind, f, strings.SplitN(cs.Consumer, ":", 2)[0][:min(6, len(strings.SplitN(cs.Consumer, ":", 2)[0]))], res.Site)
+		}
+		return fmt.Sprintf("%s:%s:%s", kind, f, callerOf(res.Stack+"\n"+res.Site+"("))
+	}
+	site := res.Site
+	caller := callerOf(res.Stack)
+	if component(site) == caller || !genericPkg.MatchString(site) {
+		return fmt.Sprintf("%s:%s:%s", kind, f, site)
+	}
+	return fmt.Sprintf("%s:%s:%s@%s", kind, f, site, caller)
+}
+
 func family(class string) string {
 	c := class
-	if i := strings.LastIndexByte(c, '.'); i >= 0 && !strings.HasPrefix(c, "tv") && !strings.HasPrefix(c, "byte") && !strings.HasPrefix(c, "metabyte") && !strings.HasPrefix(c, "databyte") {
+	if i := strings.LastIndexByte(c, '.'); i >= 0 {
 		c = c[i+1:]
 	}
 	switch c {
@@ -301,54 +380,8 @@ func family(class string) string {
 		return "negative-int"
 	case "i64max", "u32", "i32max", "b16k", "gtmax", "max", "raw2p59", "raw2p60":
 		return "huge-int"
-	case "zero", "one", "minus1", "plus1", "b127", "b128":
-		return "small-int"
 	}
-	if strings.HasPrefix(class, "meta.") {
-		return "meta." + family(strings.TrimPrefix(class, "meta."))
-	}
-	if strings.HasPrefix(class, "subst:") || class == "del" || class == "dup" {
-		return "text-edit"
-	}
-	if strings.HasPrefix(class, "metabyte") || strings.HasPrefix(class, "databyte") || strings.HasPrefix(class, "byte.") || class == "lz4corrupt" || class == "random" {
-		return "byte-overwrite"
-	}
-	if strings.HasPrefix(class, "usize.") && strings.HasSuffix(class, ".rawlen") {
-		return "negative-int"
-	}
-	return class
-}
-
-func signature(cs *Case, res *Result) string {
-	kind := res.Outcome
-	if kind == "crash" {
-		kind = "panic" // a panic in a goroutine of the reader (not recoverable by the caller)
-	}
-	switch cs.Kind {
-	case "query":
-		return fmt.Sprintf("%s:query:%s", kind, res.Site)
-	case "proto":
-		return fmt.Sprintf("%s:zng-scanner:%s:%s", kind, strings.SplitN(cs.Consumer, ":", 2)[0], res.Site)
-	}
-	rd := cs.Reader
-	if cs.Kind == "detect" {
-		rd += "+detect"
-	}
-	if cs.Sink != "" && (strings.HasPrefix(res.Site, "zson.") || strings.HasPrefix(res.Site, "zio/zsonio") || strings.HasPrefix(res.Site, "zio/zjsonio")) {
-		rd += ">" + cs.Sink
-	}
-	where := cs.Where
-	if cs.Class == "trunc" || family(cs.Class) == "text-edit" || family(cs.Class) == "byte-overwrite" {
-		where = strings.SplitN(where, ":", 2)[0] // keep the region kind only
-		if i := strings.Index(where, "."); i >= 0 && (cs.Reader == "zng" || cs.Reader == "vng" || strings.HasPrefix(cs.Reader, "auto")) {
-			where = where[:i]
-		}
-	}
-	site := res.Site
-	if kind == "invalid" {
-		site = strings.SplitN(res.Detail, ":", 2)[0]
-	}
-	return fmt.Sprintf("%s:%s:%s@%s:%s", kind, rd, family(cs.Class), where, site)
+	return "other"
 }
 
 func whatOf(cs *Case, res *Result) string {
@@ -508,10 +541,12 @@ func run(c *core.Ctx) error {
 		}
 	}
 	for _, m := range typeValueMutants() {
-		for _, o := range []Opts{{Threads: 1, ReadMax: 1 << 20, Validate: true}, {Threads: 2, ReadMax: 1 << 20, Validate: true}, {Threads: 2, ReadMax: 1 << 20}} {
+		for i, o := range []Opts{{Threads: 1, ReadMax: 1 << 20, Validate: true}, {Threads: 2, ReadMax: 1 << 20, Validate: true}, {Threads: 2, ReadMax: 1 << 20}} {
 			addRead("zng", "drain", o, "typevalue", m)
+			cases[len(cases)-1].Sink = []string{"zson", "zjson", ""}[i]
 		}
 		addRead("autostream", "drain", Opts{Threads: 2, ReadMax: 1 << 20, Validate: true}, "typevalue", m)
+		cases[len(cases)-1].Sink = ""
 	}
 	nRead := len(cases)
 
@@ -758,7 +793,7 @@ func run(c *core.Ctx) error {
 			json.Unmarshal([]byte(cs.Note), &ps)
 			checkProto(c, cs, res, &ps, expectedOf[cs.Seed])
 			c.Eval(key, ps.Class != "" || !strings.HasPrefix(cs.Consumer, "drain") || ps.Hold >= 0)
-			if len(res.Trace) > 0 && !strings.HasPrefix(cs.Consumer, "cancelwait") && !strings.Contains(res.Detail, "gate-timeout") {
+			if len(res.Trace) > 0 && cs.Opts.Threads > 1 && !strings.HasPrefix(cs.Consumer, "cancelwait") && !strings.Contains(res.Detail, "gate-timeout") {
 				traces = append(traces, res.Trace)
 			}
 			if strings.Contains(res.Detail, "gate-timeout") {
@@ -930,9 +965,9 @@ func validateTraces(c *core.Ctx, traces [][]tevent, rng *rand.Rand) error {
 		c.Inconclusive("no hook traces were recorded")
 		return nil
 	}
-	limit := 400
+	limit := 120
 	if !c.Quick() {
-		limit = 4000
+		limit = 1500
 	}
 	// deterministic sample: keep order, take every n-th with an offset from the seed
 	pick := traces
